@@ -262,7 +262,7 @@ def setup():
 def second_process(run, impl, env, cases, I):
     """hashing equal bytes gives equal hashes in every process: a second process with another heap layout,
     buffer alignment and (ASLR) other addresses must print the same lines."""
-    hcases = [(k, c) for k, c in enumerate(cases) if " H" in " " + c and I[k] != "R UB"]
+    hcases = [(k, c) for k, c in enumerate(cases) if " H" in " " + c and not I[k].startswith("R CRASH") and I[k] != "R UB"]
     if not hcases:
         return 0
     env2 = dict(env)
@@ -270,6 +270,8 @@ def second_process(run, impl, env, cases, I):
     I2 = [norm_impl(x) for x in C.run_impl_parallel([impl], [c for _, c in hcases], env=env2)]
     bad = 0
     for (k, c), y in zip(hcases, I2):
+        if y.startswith("R CRASH (not run"):
+            continue
         if y != I[k]:
             bad += 1
             if bad <= 3:
